@@ -198,6 +198,23 @@ ADDENDA4 = {
     "C20": ("; exact-comparison rule for the by-name lookup of opcode sets", " Also decides that an opcode set is found only under its whole name."),
 }
 
+# Additions after the fifth seeding round
+ADDENDA5 = {
+    "C02": ("; interval analysis (abstract interpretation over declared operand types, usual arithmetic conversions in comparisons) of saturation against the reference opcode table", " Also decides, per opcode, that the emulator saturates exactly where and to the bounds the reference table says (clamp/sign), and nowhere else; other value semantics stay undecided."),
+    "C03": ("; explicit-state exploration of the x86 emitter's control flow (finite boundary-value domain) for def-before-use of generated-code scratch slots", " Also decides that every emitted read of a region counter / row counter is preceded by an emitted store on every feasible path through the emitter."),
+    "C04": ("; compile-only witnesses (clang-folded sizeof / sign constants) for the emitted type prelude under three dialect settings", " Also decides that the integer typedefs the generated C starts with have their nominal width and signedness in every preprocessor branch, whatever the signedness of plain char."),
+    "C05": ("; interval bound of offsets into constant-size heap blocks (positive control fixture)", " Also decides that slots carved out of a constant-size malloc block lie inside it."),
+    "C06": ("; must-fact rule for stores clearing the compile-error latch; who-may-read rule for the executor's attach-time code snapshots", " Also decides that the compile-error flag is only cleared where it was known clear before the tolerated operation, and that stale attach-time copies of a program's code are read only by code-only executors."),
+    "C07": ("; acquire-guard rule of the once protocol (shared with C08)", " Also decides that lazy initialisation hands a wrapper its code object only after an acquire load saw it published."),
+    "C09": ("; freshness analysis (reaching definitions, move-out of longer-lived storage) of regions entered in the region table", " Also decides that every region appended to the region table is a newly allocated object."),
+    "C10": ("; coverage rule between allocator hand-outs and used_regs[] marking", " Also decides that every register the allocator hands out ends up recorded in used_regs[], which governs the prologue's saves."),
+    "C12": ("; agreement of VEX.pp with the legacy prefix classes; finite evaluation of the VEX form selector against the three-byte form's R/X/B operands", " Also decides that both VEX encoders put the architectural pp value for every prefix class, and that the two-byte VEX form is never selected for an operand that needs VEX.R/X/B."),
+    "C15": ("; path-wise cursor accounting in the parser's token loops", " Also decides that no token of a directive line is stepped over unread."),
+    "C16": ("; who-may-read rule for the executor's attach-time code snapshots (shared with C06)", " Also decides that a program-attached executor never dispatches through a stale copy of the program's code."),
+    "C18": ("; reaching-definition rule for the scratch-constant provider", " Also decides that orc_compiler_get_temp_constant only returns registers obtained from the scratch allocator in that call."),
+    "C20": ("; escape analysis for pointers into the reallocated opcode-set table; literal-name rule for lookups restricted to the built-in set", " Also decides that no pointer into the opcode-set table is kept across a possible registration, and that lookups restricted to the built-in set concern built-in names only."),
+}
+
 NOT_YET = "check under construction in this round; not claimed until its rules are exact on the current tree"
 NOT_APPLICABLE = {
     "C01": "value equivalence of JIT code and emulation over all inputs/register allocations: no structural necessary condition beyond what C03/C10/C11 decide; needs execution or translation validation (other technique families)",
@@ -223,6 +240,9 @@ def main():
                 tech, text = tech + a[0], text + a[1]
             if pid in ADDENDA4:
                 a = ADDENDA4[pid]
+                tech, text = tech + a[0], text + a[1]
+            if pid in ADDENDA5:
+                a = ADDENDA5[pid]
                 tech, text = tech + a[0], text + a[1]
             checks.append({
                 "property_id": pid,
